@@ -115,8 +115,9 @@ Check == lvl = 1 =>
   \* C01 / C03 at the model level: whatever is returned is a well-formed, line-safe redactable
   /\ Holds("WellFormed", ok => (WellFormed(Out(r)) /\ LineSafe(Out(r))))
   \* restorer discipline: a top-level call ends with no override and clean flags
-  /\ Holds("Restored", ok => (r.ov = "none" /\ ~r.erroring /\ ~r.panicking))
-  /\ Holds("C05", (ok /\ Slice \in {"cls", "qcls"} /\ ~HasScripts(c.ts)) => C05Holds(c, r))
+  /\ Holds("Restored", ok => (r.ov = "none" /\ ~r.erroring /\ ~r.panicking
+                               /\ (c.e \in {"Sprint", "Sprintf", "Errorf"} => r.bs.mode = MS)))      \* every printArg gave the mode back
+  /\ Holds("C05", (ok /\ Slice \in {"cls", "qcls", "dir"} /\ ~HasScripts(c.ts) /\ ~HasUnsafeWrapper(c.ts)) => C05Holds(c, r))
   /\ Holds("C06", (ok /\ Slice = "wrap") => C06Holds(c, r))
   /\ Holds("C11", (Slice = "panic") => C11Holds(c, r))
   /\ Holds("C15", (ok /\ Slice \in {"errorf", "qerrorf"}) => C15Holds(c, r))
